@@ -1,8 +1,8 @@
 package main
 
 import (
-	"verif/gosym"
 	"sync"
+	"verif/gosym"
 
 	"verif/smt"
 
@@ -373,8 +373,12 @@ func regoC13(c *checkCtx) {
 	msgs := []string{"m {{ex.p0}} end", "{{ex.p0}}", "say \"{{ex.p0}}\" 100% sure", "a\\b {{ ex.p0 }} c",
 		"{{ex.p0}} and {{ex.p0}}", "{{ ex.p0 }}-{{ex.p0}}", "{{ex.p0}}/{{ ex.p1 }}/{{ex.p0}}"}
 	var progs []regosym.Program
-	for _, m := range msgs {
-		p := regosym.Program{Name: "P", Validations: []regosym.Validation{{Name: "v", Level: "violation", Class: 0, Message: m,
+	// profile and validation names are data as well: plain ones and ones with quotes, backslashes,
+	// percent signs, braces and letters outside ASCII
+	pnames := []string{"P", `Team "blue" API rules`, `a\b 100% {x} it's`, "Validación é 漢", "Ünïcödé-1"}
+	vnames := []string{"v", `operaciones-mínimas`, `check "q" 100%`, `a\b{c}`, "v"}
+	for k, m := range msgs {
+		p := regosym.Program{Name: pnames[k%len(pnames)], Validations: []regosym.Validation{{Name: vnames[k%len(vnames)], Level: "violation", Class: 0, Message: m,
 			F: regosym.And{Fs: []regosym.Formula{regosym.Atom{Path: regosym.P(1), Kind: "minCount", N: 1}}}}}}
 		progs = append(progs, p)
 	}
@@ -383,7 +387,7 @@ func regoC13(c *checkCtx) {
 		sc.Scalars = regosym.MessagePool()
 		return sc
 	}
-	c.evidence["bounds_regosym"] = map[string]any{"messages": msgs, "value_pool": "a string with a quote and a percent sign, an integer, a boolean, a float"}
+	c.evidence["bounds_regosym"] = map[string]any{"messages": msgs, "profile_names": pnames, "validation_names": vnames, "value_pool": "a string with a quote and a percent sign, an integer, a boolean, a float"}
 	outs, err := runShapes(regoWork(c), progs, scope, regosym.ShapeOptions{Message: true}, 16)
 	if err != nil {
 		c.inconclusive("regosym: " + err.Error())
